@@ -51,4 +51,12 @@ void _ZN5QListI7QStringE6appendERKS0_(char *self, char *t) { struct ld *d = LD(s
     for (uint32_t k = 0; k < LIST_CAP; k++) { if (k >= n->end) break; n->array[k] = d->array[d->begin + k]; qad_ref(*(QAD**)&n->array[k]); }
     if (d->ref != (uint32_t)-1 && d->ref != 0) d->ref--; LD(self) = n; d = n; }
   QAD *sd = qad_ref(*(QAD**)t); uint32_t e = d->end; ASSERT(e < LIST_CAP, "QList capacity of the model exceeded"); d->end = e + 1; d->array[e] = (char*)sd; }
+/* Class-level model of QList<QString>::node_destruct(from, to) (destroys the strings of a block that is being freed).  The
+   header version walks back from `to` and runs ~QString on every node; when the list length is symbolic every one of those
+   is a conditional reference-count store through a pointer that may denote any string of the harness (measured: 17 of 18 M
+   clauses of a one-name instance).  In this harness every string block is static (ref == -1, never counted, never freed);
+   that is asserted for each destroyed node, and then destroying it is a no-op. */
+void _ZN5QListI7QStringE13node_destructEPNS1_4NodeES3_(char *self, char *from, char *to) {
+  for (uint32_t k = 0; k < LIST_CAP; k++) { char **n = (char**)from + k; if ((char*)n >= to) break;
+    ASSERT(REF(*(QAD**)n) == (uint32_t)-1, "C05: QList<QString> element with counted string data destroyed (only static strings are modelled)"); } }
 #endif
